@@ -32,8 +32,9 @@ Definition prio0 := mkPrio 0 false 0.
 (* http2.PriorityParam.IsZero *)
 Definition prio_is_zero (p : prio) : bool := (p_dep p =? 0) && negb (p_excl p) && (p_weight p =? 0).
 
-(* queued_frames.go.  [fields] of QHdr/QPush is ghost state (the header list the
-   chunks were encoded from); the Go structs keep the chunks only. *)
+(* queued_frames.go.  QHdr/QPush keep the header list; [chunks] is empty while the frame is queued
+   and is filled by prepare() when the frame is released (the block is HPACK-encoded then, so that
+   blocks are encoded in the order they are written). *)
 Inductive qframe :=
 | QData (id : N) (es : bool) (data : list N)
 | QHdr (id : N) (es : bool) (p : prio) (fields : list field) (chunks : list (list N))
@@ -88,8 +89,12 @@ Definition sends (l : list qframe) : list wframe := flat_map send l.
 (* what a relay writes towards an endpoint: a frame released from a queue (written by the writer
    goroutine through send; the ghost header list stays visible to the theorems) or a frame written
    directly by processFrame / sendWindowUpdates *)
-Inductive oframe := OQ (q : qframe) | OW (w : wframe).
-Definition wire1 (o : oframe) : list wframe := match o with OQ q => send q | OW w => [w] end.
+Inductive oframe :=
+| OQ (q : qframe)
+| OW (w : wframe)
+| OResize (v : N)       (* not a frame: encoder.SetMaxDynamicTableSize(v) happened at this point of the step *)
+| OSetMax (m : N).      (* not a frame: maxFrameSize became m at this point of the step *)
+Definition wire1 (o : oframe) : list wframe := match o with OQ q => send q | OW w => [w] | _ => [] end.
 Definition wire (l : list oframe) : list wframe := flat_map wire1 l.
 Definition oq (l : list qframe) : list oframe := map OQ l.
 Definition ow (l : list wframe) : list oframe := map OW l.
@@ -298,30 +303,58 @@ Section Codec.
 
   Definition with_flow (r : relay) (fl : flow) : relay := mkRelay fl (r_cont r) (r_hbuf r) (r_dst r) (r_est r).
 
-  (* relay.header: (relay, frames released, the frame that was queued) *)
+  (* relay.header: (relay, frames released, the frame that was queued); the block is not encoded here *)
   Definition r_header (r : relay) (id : N) (fields : list field) (es : bool) (p : prio) : option (relay * list qframe * qframe) :=
-    let '(bytes, est') := enc (r_est r) fields in
-    let maxp := f_max (r_flow r) in
-    let first := if prio_is_zero p then maxp else u32_sub maxp headers_priority_len in
-    match split_chunks first maxp bytes with
-    | None => None
-    | Some ch =>
-        let q := QHdr id es p fields ch in
-        let '(fl, em) := enqueue_emit q (r_flow r) in
-        Some (mkRelay fl (r_cont r) (r_hbuf r) (r_dst r) est', em, q)
-    end.
+    let q := QHdr id es p fields [] in
+    let '(fl, em) := enqueue_emit q (r_flow r) in
+    Some (mkRelay fl (r_cont r) (r_hbuf r) (r_dst r) (r_est r), em, q).
 
   (* relay.pushPromise *)
   Definition r_push (r : relay) (id promise : N) (fields : list field) : option (relay * list qframe * qframe) :=
-    let '(bytes, est') := enc (r_est r) fields in
-    let maxp := f_max (r_flow r) in
-    let first := u32_sub maxp push_promise_meta_len in
-    match split_chunks first maxp bytes with
-    | None => None
-    | Some ch =>
-        let q := QPush id promise fields ch in
-        let '(fl, em) := enqueue_emit q (r_flow r) in
-        Some (mkRelay fl (r_cont r) (r_hbuf r) (r_dst r) est', em, q)
+    let q := QPush id promise fields [] in
+    let '(fl, em) := enqueue_emit q (r_flow r) in
+    Some (mkRelay fl (r_cont r) (r_hbuf r) (r_dst r) (r_est r), em, q).
+
+  (* queuedHeaderFrame.prepare / queuedPushPromiseFrame.prepare + relay.headerChunks, run by
+     emitEligibleFrames just before a frame enters the output channel.  None: splitIntoChunks does not terminate *)
+  Definition prepare (est : estate) (maxp : N) (q : qframe) : option (qframe * estate) :=
+    match q with
+    | QHdr id es p fields _ =>
+        let '(bytes, est') := enc est fields in
+        let first := u32_sub maxp (if prio_is_zero p then 0 else headers_priority_len) in
+        match split_chunks first maxp bytes with
+        | Some ch => Some (QHdr id es p fields ch, est')
+        | None => None
+        end
+    | QPush id pr fields _ =>
+        let '(bytes, est') := enc est fields in
+        match split_chunks (u32_sub maxp push_promise_meta_len) maxp bytes with
+        | Some ch => Some (QPush id pr fields ch, est')
+        | None => None
+        end
+    | _ => Some (q, est)
+    end.
+
+  (* what one relay writes during a step, in order, with the encoder state and max frame size of the moment *)
+  Fixpoint run_script (est : estate) (maxp : N) (l : list oframe) : option (list oframe * estate) :=
+    match l with
+    | [] => Some ([], est)
+    | OQ q :: r =>
+        match prepare est maxp q with
+        | Some (q', est') =>
+            match run_script est' maxp r with
+            | Some (l', est'') => Some (OQ q' :: l', est'')
+            | None => None
+            end
+        | None => None
+        end
+    | OW w :: r =>
+        match run_script est maxp r with
+        | Some (l', est') => Some (OW w :: l', est')
+        | None => None
+        end
+    | OResize v :: r => run_script (eresize est v) maxp r
+    | OSetMax m :: r => run_script est m r
     end.
 
   Record pair := mkPair { toC : relay; toS : relay }.
@@ -341,9 +374,10 @@ Section Codec.
     end.
 
   (* the ForeachSetting callback of processFrame, applied to the peer relay.
-     Result: peer, frames released towards [from], remaining orders, false = callback returned an error *)
-  Fixpoint apply_settings (l : list (N * N)) (orders : list (list N)) (peer : relay) (acc : list qframe)
-    : relay * list qframe * bool :=
+     Result: peer, what happened towards [from] in order (frames released, encoder resizes, max frame size
+     changes), false = the callback returned an error *)
+  Fixpoint apply_settings (l : list (N * N)) (orders : list (list N)) (peer : relay) (acc : list oframe)
+    : relay * list oframe * bool :=
     match l with
     | [] => (peer, acc, true)
     | (id, v) :: rest =>
@@ -352,12 +386,12 @@ Section Codec.
           apply_settings rest orders
             (mkRelay (r_flow peer) (r_cont peer) (r_hbuf peer)
                      (if table_size_resizes_decoder then dresize (r_dst peer) v else r_dst peer)
-                     (eresize (r_est peer) v)) acc
+                     (r_est peer)) (acc ++ [OResize v])
         else if id =? 4 then
           let '(fl, e) := update_init v (hd [] orders) (r_flow peer) in
-          apply_settings rest (tl orders) (with_flow peer fl) (acc ++ e)
+          apply_settings rest (tl orders) (with_flow peer fl) (acc ++ oq e)
         else if id =? 5 then
-          apply_settings rest orders (with_flow peer (update_max v (r_flow peer))) acc
+          apply_settings rest orders (with_flow peer (update_max v (r_flow peer))) (acc ++ [OSetMax v])
         else apply_settings rest orders peer acc
     end.
 
@@ -368,8 +402,9 @@ Section Codec.
     | None => None
     end.
 
-  (* relay.processFrame for a frame read from endpoint [from] *)
-  Definition pstep (p : pair) (from : side) (f : rframe) (orders : list (list N)) : sres :=
+  (* relay.processFrame for a frame read from endpoint [from], up to the point where released frames enter
+     the output channels (header blocks not yet encoded) *)
+  Definition pcore (p : pair) (from : side) (f : rframe) (orders : list (list N)) : sres :=
     let me := toward (other from) p in
     let peer := toward from p in
     let fin (o : option (relay * list qframe * qframe)) (me0 : relay) : sres :=
@@ -429,15 +464,27 @@ Section Codec.
     | RSettings ack l =>
         if ack then res from me peer [] [OW WSettingsAck] Ok []
         else
-          let '(peer', em, ok) := apply_settings l orders peer [] in
-          if ok then res from me peer' (oq em) [OW (WSettings l)] Ok []
-          else res from me peer' (oq em) [] Err []
+          let '(peer', scr, ok) := apply_settings l orders peer [] in
+          if ok then res from me peer' scr [OW (WSettings l)] Ok []
+          else res from me peer' scr [] Err []
     | RPing ack d => res from me peer [] [OW (WPing ack d)] Ok []
     | RGoAway last code dbg => res from me peer [] [OW (WGoAway last code dbg)] Ok []
     | RWinUpd id inc =>
         let '(fl, em) := update_window id inc (hd [] orders) (r_flow peer) in
         res from me (with_flow peer fl) (oq em) [] Ok []
     | RUnknown => res from me peer [] [] Err []
+    end.
+
+  Definition with_est (r : relay) (e : estate) : relay := mkRelay (r_flow r) (r_cont r) (r_hbuf r) (r_dst r) e.
+
+  (* ... and the whole step: the frames each relay releases are prepared (encoded, chunked) in order *)
+  Definition pstep (p : pair) (from : side) (f : rframe) (orders : list (list N)) : sres :=
+    let s := pcore p from f orders in
+    match run_script (r_est (toC (s_pair s))) (f_max (r_flow (toC p))) (s_toC s),
+          run_script (r_est (toS (s_pair s))) (f_max (r_flow (toS p))) (s_toS s) with
+    | Some (oc, ec), Some (os, es') =>
+        mkRes (mkPair (with_est (toC (s_pair s)) ec) (with_est (toS (s_pair s)) es')) oc os (s_status s) (s_enq s)
+    | _, _ => mkRes (s_pair s) [] [] Diverge []
     end.
 
   Record event := mkEv { e_from : side; e_frame : rframe; e_orders : list (list N) }.
@@ -485,7 +532,11 @@ Arguments r_header {dstate estate}.
 Arguments r_push {dstate estate}.
 Arguments complete {dstate estate}.
 Arguments apply_settings {dstate estate}.
+Arguments pcore {dstate estate}.
 Arguments pstep {dstate estate}.
+Arguments prepare {estate}.
+Arguments run_script {estate}.
+Arguments with_est {dstate estate}.
 Arguments run {dstate estate}.
 
 (* ------------------------------------------------------------- h2.go forwardPreface *)
